@@ -65,15 +65,34 @@ fn one_request(bytes: &[u8], max: Option<usize>) -> Value {
 }
 
 /// feeds all bytes to a connection with maximal reads; collects every request and the first error
-fn conn_on(bytes: &[u8], limit: usize) -> Value {
+fn conn_on(bytes: &[u8], limit: usize, cuts: &[usize]) -> Value {
     let stream = ScriptStream::new();
     let mut conn = HttpConnection::new(stream.clone());
     conn.set_payload_max_size(limit);
-    stream.0.borrow_mut().rxq.extend(bytes.iter());
     let mut popped = vec![];
     let mut res = json!({"k": "Ok", "e": obs::no_err()});
     let mut guard = 0;
-    while !stream.0.borrow().rxq.is_empty() && guard < 100_000 {
+    let mut fed = 0;
+    let mut cuts: Vec<usize> = cuts.iter().cloned().filter(|c| *c > 0 && *c < bytes.len()).collect();
+    cuts.push(bytes.len());
+    let mut ci = 0;
+    loop {
+        if stream.0.borrow().rxq.is_empty() {
+            // the peer's next segment arrives
+            if ci >= cuts.len() || fed >= bytes.len() {
+                break;
+            }
+            let upto = cuts[ci].max(fed);
+            ci += 1;
+            stream.0.borrow_mut().rxq.extend(bytes[fed..upto].iter());
+            fed = upto;
+            if stream.0.borrow().rxq.is_empty() {
+                continue;
+            }
+        }
+        if guard >= 100_000 {
+            break;
+        }
         guard += 1;
         stream.0.borrow_mut().next_read = Some(ReadScript::Data(vec![]));
         let r = conn.try_read();
@@ -139,7 +158,8 @@ pub fn run_case(case: &Value, out: &mut dyn Write) {
                 let bytes = obs::from_bytes(&case["bytes"]);
                 let max = case["max"].as_i64().unwrap_or(-1);
                 let limit = obs::from_digits(&case["limit"]) as usize;
-                json!({"one": one_request(&bytes, if max < 0 { None } else { Some(max as usize) }), "conn": conn_on(&bytes, limit)})
+                let cuts: Vec<usize> = case["cuts"].as_array().map(|a| a.iter().map(|x| x.as_u64().unwrap_or(0) as usize).collect()).unwrap_or_default();
+                json!({"one": one_request(&bytes, if max < 0 { None } else { Some(max as usize) }), "conn": conn_on(&bytes, limit, &cuts)})
             }
             "resp" => {
                 let r = respbuild::build(&case["resp"]);
